@@ -88,7 +88,13 @@ def effect_sites(P, fns):
                 out.append(("rng-draw", f, bb, path))
             elif path.endswith("SystemTime::now") or path.endswith("Instant::now"):
                 out.append(("clock", f, bb, path))
+            elif any(x in path for x in _STATE_PATHS):
+                out.append(("state", f, bb, path))
     return out
+
+
+# state that outlives a call: a result that goes through it depends on the history of calls, not only on the arguments
+_STATE_PATHS = ("thread::local", "LocalKey", "OnceLock", "OnceCell", "LazyLock", "LazyCell", "lazy_static", "AtomicU", "AtomicI", "AtomicBool", "AtomicPtr", "sync::Mutex", "sync::RwLock", "RefCell", "cell::Cell")
 
 
 def check_no_effects(ctx, rule, P, root_keys, allow_clock=False, allow=()):
@@ -103,6 +109,10 @@ def check_no_effects(ctx, rule, P, root_keys, allow_clock=False, allow=()):
     for f in reach.values():
         ctx.saw(f)
     sites = effect_sites(P, reach.values())
+    state = [s for s in sites if s[0] == "state"]
+    sites = [s for s in sites if s[0] != "state"]
+    stat = [s_ for s_ in P.statics if s_.get("thread_local") or s_.get("mutable") or not s_.get("freeze", False)]
+    ctx.ob(rule, "no-hidden-state", not state and not stat, "no state survives a call: cells / thread-locals / atomics / locks used in the %d reachable functions: %s; thread_local / mutable / interior-mutable statics in the crate: %s" % (len(reach), [(f.key, p) for _, f, bb, p in state][:4], [s_["path"] for s_ in stat][:4]), where=where(state[0][1], state[0][2]) if state else None)
     bad = [s for s in sites if not (allow_clock and s[0] == "clock") and s[1].key not in allow]
     ctx.ob(
         rule,
@@ -1182,3 +1192,16 @@ def check_aggregate_key_guard(ctx, rule, P):
         pkc = [B.peel(c) for c in comps if not _has_h2p(c)]
         ok = bool(pkc) and any(not pol and a[0] == "atom" and a[1] == "is_identity" and B.peel(a[2]) == pkc[0] for a, pol in e["lits"])
         ctx.ob(rule, "BlsSignatureCore::core_aggregate_verify/pairs.push((hash, pk)) per entry", ok, "the per-entry pair (%s) is built only after !is_identity of the very key it contains" % e["mode"], where=where(e["fn"], e["bb"]))
+
+
+def check_core_combiners(ctx, rule, P):
+    """The core combiners hand the slice they were given, whole and unmodified, to vsss-rs: every payload is decoded by
+    `combine_shares_group` (which validates each one) - none is dropped, deduplicated or replaced beforehand."""
+    for fk in ("BlsSignatureCore::core_combine_signature_shares", "BlsSignatureCore::core_combine_public_key_shares"):
+        f = ctx.need_fn(rule, fk, P)
+        if f is None:
+            continue
+        ev = evaluate(f)
+        sites = [s for s in ev.sites.values() if s.callee[0] == "vsss_rs::combine_shares_group"]
+        ok = bool(sites) and projection_root(strip_sites(sites[0].args[0])) is not None and projection_root(strip_sites(sites[0].args[0]))[0].a[1] == "shares"
+        ctx.ob(rule, fk, ok, "combine_shares_group(shares) receives the slice unmodified", where=where(f))
